@@ -160,6 +160,8 @@ func isoApply(m [6]int, x, y int) (int, int) {
 type isoShown struct {
 	clean bool
 	x, y  int
+	base  int // font size x text-matrix scale
+	sq    int // squared length of the image of the vertical unit vector under the cms
 }
 
 func isoRun(ops []c08Op, g *isoG, stack *[]isoG, top bool, out *[]isoShown) bool {
@@ -172,7 +174,21 @@ func isoRun(ops []c08Op, g *isoG, stack *[]isoG, top bool, out *[]isoShown) bool
 		for _, m := range g.cms {
 			x, y = isoApply(m, x, y)
 		}
-		*out = append(*out, isoShown{g.clean, x, y})
+		vx, vy := 0, 1
+		for _, m := range g.cms {
+			vx, vy = m[0]*vx+m[2]*vy, m[1]*vx+m[3]*vy
+		}
+		ab := func(z int) int {
+			if z < 0 {
+				return -z
+			}
+			return z
+		}
+		sc := ab(g.tmBase[0])
+		if ab(g.tmBase[3]) > sc {
+			sc = ab(g.tmBase[3])
+		}
+		*out = append(*out, isoShown{g.clean, x, y, g.fs * sc, vx*vx + vy*vy})
 		g.clean = false
 	}
 	for _, o := range ops {
@@ -372,6 +388,13 @@ func c08RunProgram(r *Run, ops []c08Op, tag string) {
 		fs := int64(-1)
 		if f.FontSize == math.Trunc(f.FontSize) && math.Abs(f.FontSize) < 1e15 {
 			fs = int64(f.FontSize)
+		}
+		// font size = font size x text-matrix scale x CTM vertical scale (checked when the scale is rational)
+		if root := int(math.Round(math.Sqrt(float64(iso[i].sq)))); root*root == iso[i].sq {
+			if root == 0 {
+				root = 1
+			}
+			r.Check(f.FontSize == float64(iso[i].base*root), "font-size", fmt.Sprintf("show #%d: reported size %v, font size x text scale x CTM scale = %d", i, f.FontSize, iso[i].base*root), cv)
 		}
 		out = append(out, L(pos, I64(fs)))
 	}
